@@ -10,6 +10,15 @@
  *     abort               the frame was abandoned (session reset or error): the ring is emptied
  *     end <ok|FAIL ...> frames=<n> in=<bytes> out=<bytes>
  * op:  mt <workers> <id=val,...|-> <size> <seed> <in-chunks csv> <out-caps csv> <perturb 0..6> <pseed> <abortAfterCalls|-1> <midLevel|0> <frames> [<id=val,... for odd frames>]
+ * op:  mtf <workers> <id=val,...|-> <size> <seed> <in-chunks csv> <out-caps csv> <perturb 0..6> <pseed> <who> <nth> <sticky 0|1> <faultFrame 0|1> <delayJob|-1> <delayUs> <flushEvery|0>
+ *      allocation faults: the context is created with a ZSTD_customMem allocator; in frame <faultFrame> of three the request number <nth> (from 0) of the
+ *      class <who> (A any thread, W worker threads, C the caller, J<j> the worker running job j) is answered NULL (sticky: and every request after it, until the
+ *      call has returned); every <flushEvery>-th call asks for a flush.  Schedule hook: the worker of job <delayJob> is held where it asks for its serial turn until a failed job has left through
+ *      ZSTDMT_serialState_ensureFinished (<delayUs> microseconds at most) and a job that did not fail has then had a serial turn (a quarter of that at most).
+ *      The faulted frame must end with an error or decode to the input; the two frames after it (session reset, then parameter reset) must decode to the input;
+ *      every request must have been handed back after ZSTD_freeCCtx.  The protocol trace is cut (`abort`) at the instant the fault fires; in addition
+ *          efin <j> <before> <after>    the worker of the FAILED job j went through ZSTDMT_serialState_ensureFinished: serial.nextJobID at lock / at unlock
+ *      end <ok|FAIL ...> frames=<n> in= out= fault=<0|1> res=<ok|error name of the faulted frame> allocs=<all>/<workers>/<caller>
  * perturb (5 = jobs reach the serial section in reversed order within each group of three): 0 none, 1 random yields / sleeps before every primitive, 2 worker W0 is slow, 3 the caller is slow, 4 the serial section is slow. */
 #define _GNU_SOURCE
 #include <stdio.h>
@@ -51,14 +60,18 @@ static int zv_tryAdd(POOL_ctx* ctx, POOL_function fn, void* arg);
 /* ---- log ---- */
 static pthread_mutex_t g_log = PTHREAD_MUTEX_INITIALIZER;
 static char* g_buf; static size_t g_len, g_cap;
+static int g_cut;      /* op mtf: an allocation fault has fired in this frame: protocol events are no longer logged (read / written under g_log) */
 static void ev(const char* fmt, ...) { va_list ap; char tmp[128]; int n; va_start(ap, fmt); n = vsnprintf(tmp, sizeof tmp, fmt, ap); va_end(ap);
-    pthread_mutex_lock(&g_log); if (g_len + (size_t)n + 1 > g_cap) { g_cap = (g_cap + (size_t)n + 1) * 2; g_buf = (char*)realloc(g_buf, g_cap); } memcpy(g_buf + g_len, tmp, (size_t)n); g_len += (size_t)n; g_buf[g_len] = 0; pthread_mutex_unlock(&g_log); }
+    pthread_mutex_lock(&g_log); if (g_cut && strncmp(tmp, "efin ", 5)) { pthread_mutex_unlock(&g_log); return; } if (g_len + (size_t)n + 1 > g_cap) { g_cap = (g_cap + (size_t)n + 1) * 2; g_buf = (char*)realloc(g_buf, g_cap); } memcpy(g_buf + g_len, tmp, (size_t)n); g_len += (size_t)n; g_buf[g_len] = 0; pthread_mutex_unlock(&g_log); }
 
 static __thread int t_worker = -1;       /* -1 = caller */
 static __thread unsigned t_jobID;        /* job the worker is running */
 static __thread int t_stall;             /* this job is the first one loaded after the round buffer wrapped (its prefix sits at the start of the buffer) */
 static __thread int t_serialWake;        /* 0 none, 1 signal, 2 broadcast on the serial condition since the serial mutex was taken */
 static __thread unsigned t_rng;
+static __thread void* t_job;             /* description of the job the worker is running (NULL outside a job) */
+static __thread unsigned t_serialAtLock; /* serial.nextJobID when this thread took the serial mutex */
+static __thread long t_jobAllocs;        /* allocator requests made by this worker since its job started */
 static int g_perturb; static unsigned g_pseed = 1; static int g_nworkers;
 static ZSTD_CCtx* g_cctx; static void frame_start(ZSTD_CCtx* c);
 static ZSTDMT_CCtx* g_mt; static serialState_t* g_serial; static unsigned g_serialSeen;
@@ -67,9 +80,18 @@ static ZSTDMT_jobDescription* g_job[RING];          /* posted job descriptions b
 /* caller-side bookkeeping for deriving flush / retire */
 static unsigned g_cDone, g_cNext; static size_t g_cFlushed; static unsigned long long g_cProduced; static int g_ckPending[RING]; static int g_inFrame;
 
+/* op mtf, schedule hook: the worker of job g_dJob is held where it asks for its serial turn until a FAILED job has gone through
+ * ZSTDMT_serialState_ensureFinished (g_efinDone), for g_dUs microseconds at most: an older job that has not had its turn when a younger one bails out */
+static int g_patient; static int g_dJob = -1; static unsigned g_dUs; static int g_efinDone; static __thread int t_held;
+static void nap(unsigned us);
+static int g_turnAfterEfin;    /* a job that did not fail went through the serial section after a failed one had left */
+static void hold_turn(void) { unsigned waited = 0; t_held = 1; while (!__atomic_load_n(&g_efinDone, __ATOMIC_ACQUIRE) && waited < g_dUs) { nap(200); waited += 200; }
+    /* then let a younger job take its turn first (a quarter of the limit at most): the held job finds the counter beyond its own id */
+    if (__atomic_load_n(&g_efinDone, __ATOMIC_ACQUIRE)) { waited = 0; while (!__atomic_load_n(&g_turnAfterEfin, __ATOMIC_ACQUIRE) && waited < g_dUs / 4) { nap(200); waited += 200; } } }
 static void nap(unsigned us) { struct timespec ts; ts.tv_sec = us / 1000000; ts.tv_nsec = (long)(us % 1000000) * 1000; nanosleep(&ts, NULL); }
 static void perturb(int where, pthread_mutex_t* m) {   /* where: 0 before lock, 1 before unlock */
     serialState_t* const sr = __atomic_load_n(&g_serial, __ATOMIC_ACQUIRE);
+    if (g_dJob >= 0 && where == 0 && t_worker >= 0 && t_job && !t_held && t_jobID == (unsigned)g_dJob && sr && m == &sr->mutex && !ZSTD_isError(((ZSTDMT_jobDescription*)t_job)->cSize)) hold_turn();
     if (g_perturb == 1) { t_rng = t_rng * 1103515245u + 12345u; switch ((t_rng >> 16) & 7) { case 0: sched_yield(); break; case 1: nap((t_rng >> 20) & 255); break; case 2: nap(((t_rng >> 20) & 15) * 100); break; default: break; } }
     else if (g_perturb == 2) { if (t_worker == 0 && where == 1) nap(3000); }
     else if (g_perturb == 3) { if (t_worker < 0 && where == 0) nap(1500); }
@@ -85,7 +107,7 @@ static void caller_sync(void) {
 #ifdef ZV_NOTRACE      /* ThreadSanitizer build: no event bookkeeping (it reads shared fields without the library's locks) */
     return;
 #endif
-    if (!mt || !g_inFrame) return;
+    if (!mt || !g_inFrame || __atomic_load_n(&g_cut, __ATOMIC_ACQUIRE)) return;
     while (g_cDone < mt->doneJobID) {   /* job g_cDone was retired: everything it had was flushed */
         unsigned long long const total = mt->produced - g_cProduced;     /* its final cSize (checksum included) */
         if (mt->doneJobID - g_cDone > 1) { ev("sync-gap %u %u\n", g_cDone, mt->doneJobID); }
@@ -105,12 +127,14 @@ static POOL_function g_realJob;
 #define SERIAL() __atomic_load_n(&g_serial, __ATOMIC_ACQUIRE)
 static void zv_jobfn(void* arg) { POOL_function f = __atomic_load_n(&g_realJob, __ATOMIC_ACQUIRE); ZSTDMT_jobDescription* job = (ZSTDMT_jobDescription*)arg;
     ZSTDMT_CCtx* mt = (ZSTDMT_CCtx*)((char*)job->serial - offsetof(ZSTDMT_CCtx, serial));
-    t_jobID = job->jobID; t_stall = (job->jobID > 0 && job->prefix.size > 0 && job->prefix.start == (const void*)mt->roundBuff.buffer) ? 1 : 0; f(arg); }
+    t_jobID = job->jobID; t_stall = (job->jobID > 0 && job->prefix.size > 0 && job->prefix.start == (const void*)mt->roundBuff.buffer) ? 1 : 0; t_job = job; t_jobAllocs = 0; t_held = 0; f(arg); t_job = NULL; }
 static int zv_signal(pthread_cond_t* c) { serialState_t* sr = SERIAL(); if (sr && c == &sr->cond && t_serialWake < 1) t_serialWake = 1; return pthread_cond_signal(c); }
 static int zv_broadcast(pthread_cond_t* c) { serialState_t* sr = SERIAL(); if (sr && c == &sr->cond) t_serialWake = 2; return pthread_cond_broadcast(c); }
 static int zv_tryAdd(POOL_ctx* ctx, POOL_function fn, void* arg) {
     ZSTDMT_jobDescription* job = (ZSTDMT_jobDescription*)arg; int r;
     __atomic_store_n(&g_realJob, fn, __ATOMIC_RELEASE); __atomic_store_n(&g_serial, job->serial, __ATOMIC_RELEASE);
+    /* op mtf: the caller offers a job once a worker can take it (the previous job has been picked up), whatever the load of the machine: jobs overlap */
+    if (g_patient) { int k; for (k = 0; k < 400; k++) { int full; pthread_mutex_lock(&ctx->queueMutex); full = isQueueFull(ctx); pthread_mutex_unlock(&ctx->queueMutex); if (!full) break; nap(500); } }
 #ifdef ZV_NOTRACE
     return POOL_tryAdd(ctx, zv_jobfn, arg);
 #endif
@@ -126,6 +150,7 @@ static int zv_tryAdd(POOL_ctx* ctx, POOL_function fn, void* arg) {
 static ZSTDMT_jobDescription* job_of_mutex(pthread_mutex_t* m) { int k; for (k = 0; k < RING; k++) if (g_job[k] && &g_job[k]->job_mutex == m) return g_job[k]; return NULL; }
 static int zv_lock(pthread_mutex_t* m) { int r; perturb(0, m); r = pthread_mutex_lock(m);
 #ifndef ZV_NOTRACE
+    if (t_worker >= 0) { serialState_t* const sr = SERIAL(); if (sr && m == &sr->mutex) t_serialAtLock = sr->nextJobID; }
     if (t_worker < 0 && g_mt && job_of_mutex(m)) caller_sync();
 #endif
     return r; }
@@ -136,10 +161,14 @@ static void on_release(pthread_mutex_t* m) {
     if (t_worker >= 0) {
         ZSTDMT_jobDescription* j = job_of_mutex(m);
         if (j) { if (ZSTD_isError(j->cSize)) ev("fail %u\n", j->jobID); else ev("prod %u %zu %zu\n", j->jobID, j->consumed, j->cSize); }
-        else if (g_serial && m == &g_serial->mutex) { unsigned const v = g_serial->nextJobID; if (v == g_serialSeen + 1) ev("serial %u %d\n", g_serialSeen, t_serialWake); g_serialSeen = v; t_serialWake = 0; }
+        else if (g_serial && m == &g_serial->mutex) { unsigned const v = g_serial->nextJobID; if (v == g_serialSeen + 1) ev("serial %u %d\n", g_serialSeen, t_serialWake); g_serialSeen = v; t_serialWake = 0;
+            /* a job that has reported an error only takes this mutex in ZSTDMT_serialState_ensureFinished (the worker is the only writer of an error code into its cSize) */
+            if (t_job && ZSTD_isError(((ZSTDMT_jobDescription*)t_job)->cSize)) ev("efin %u %u %u\n", ((ZSTDMT_jobDescription*)t_job)->jobID, t_serialAtLock, v); }
     }
 }
-static int zv_unlock(pthread_mutex_t* m) { int r; serialState_t* const sr = __atomic_load_n(&g_serial, __ATOMIC_ACQUIRE); perturb(1, m); on_release(m); r = pthread_mutex_unlock(m);
+static int zv_unlock(pthread_mutex_t* m) { int r; serialState_t* const sr = __atomic_load_n(&g_serial, __ATOMIC_ACQUIRE); perturb(1, m); on_release(m);
+    { int const ser = t_worker >= 0 && t_job && sr && m == &sr->mutex; int const efin = ser && ZSTD_isError(((ZSTDMT_jobDescription*)t_job)->cSize); r = pthread_mutex_unlock(m);
+      if (efin) __atomic_store_n(&g_efinDone, 1, __ATOMIC_RELEASE); else if (ser && __atomic_load_n(&g_efinDone, __ATOMIC_ACQUIRE)) __atomic_store_n(&g_turnAfterEfin, 1, __ATOMIC_RELEASE); }
     if (g_perturb == 6 && t_stall == 1 && sr && m == &sr->mutex) { t_stall = 0; nap(400000); }      /* serial turn over, compression of the job not started yet */
     return r; }
 static int zv_wait(pthread_cond_t* c, pthread_mutex_t* m) { int r; on_release(m); r = pthread_cond_wait(c, m);
@@ -150,6 +179,28 @@ static int zv_wait(pthread_cond_t* c, pthread_mutex_t* m) { int r; on_release(m)
 typedef struct { void* (*fn)(void*); void* arg; int idx; } wstart_t;
 static void* wstart(void* o) { wstart_t w = *(wstart_t*)o; free(o); t_worker = w.idx; t_rng = g_pseed * 7919u + (unsigned)w.idx * 104729u + 17; return w.fn(w.arg); }
 static int zv_create(pthread_t* t, const void* attr, void* (*fn)(void*), void* arg) { wstart_t* w = (wstart_t*)malloc(sizeof *w); (void)attr; w->fn = fn; w->arg = arg; w->idx = g_nworkers++; return pthread_create(t, NULL, wstart, w); }
+
+/* ---- allocation faults (op mtf): ZSTD_customMem allocator that answers NULL on request, counts live blocks, and doubles as a schedule hook ---- */
+static int g_fWho = -1;               /* -1 no fault; 0 any thread; 1 worker threads; 2 the caller; 3 the worker running job g_fJob */
+static unsigned g_fJob; static long g_fNth; static int g_fSticky, g_fArmed, g_fFired;
+static long g_nAll, g_nWorker, g_nCaller, g_live;
+static void fault_fire(void) { pthread_mutex_lock(&g_log);
+    if (!g_fFired) { static const char a[] = "abort\n"; if (g_len + sizeof a > g_cap) { g_cap = (g_cap + sizeof a) * 2; g_buf = (char*)realloc(g_buf, g_cap); } memcpy(g_buf + g_len, a, sizeof a); g_len += sizeof a - 1; }
+    __atomic_store_n(&g_cut, 1, __ATOMIC_RELEASE); __atomic_store_n(&g_fFired, 1, __ATOMIC_RELEASE); pthread_mutex_unlock(&g_log); }
+static void* zv_malloc(void* opaque, size_t size) { void* p; (void)opaque;
+    if (__atomic_load_n(&g_fArmed, __ATOMIC_ACQUIRE)) { long idx = -1; long const a = __atomic_fetch_add(&g_nAll, 1, __ATOMIC_SEQ_CST);
+        if (t_worker >= 0) { long const w = __atomic_fetch_add(&g_nWorker, 1, __ATOMIC_SEQ_CST); long const k = t_jobAllocs++;
+            if (g_perturb == 1) { t_rng = t_rng * 1103515245u + 12345u; if (((t_rng >> 16) & 3) == 0) nap((t_rng >> 20) & 2047); }
+            if (g_fWho == 1) idx = w; else if (g_fWho == 3 && t_job && t_jobID == g_fJob) idx = k;
+        } else { long const c = __atomic_fetch_add(&g_nCaller, 1, __ATOMIC_SEQ_CST); if (g_fWho == 2) idx = c; }
+        if (g_fWho == 0) idx = a;
+        if ((idx >= 0 && idx == g_fNth) || (g_fSticky && __atomic_load_n(&g_fFired, __ATOMIC_ACQUIRE))) { fault_fire(); return NULL; } }
+    p = malloc(size); if (p) __atomic_fetch_add(&g_live, 1, __ATOMIC_SEQ_CST); return p; }
+static void zv_free(void* opaque, void* p) { (void)opaque; if (p) __atomic_fetch_sub(&g_live, 1, __ATOMIC_SEQ_CST); free(p); }
+#define FIRED() __atomic_load_n(&g_fFired, __ATOMIC_ACQUIRE)
+#define LIVE() __atomic_load_n(&g_live, __ATOMIC_SEQ_CST)
+static int roundtrip(const unsigned char* src, size_t n, const unsigned char* dst, size_t out, unsigned char* back) {
+    size_t const dr = ZSTD_decompress(back, n, dst, out); return !(ZSTD_isError(dr) || dr != n || memcmp(back, src, n)); }
 
 /* ---- data ---- */
 static unsigned long long rs;
@@ -173,11 +224,23 @@ static void gen_data(unsigned char* p, size_t n, unsigned long long seed) {
         i += len; }
 }
 static size_t csv(char* s, size_t* a, size_t max) { size_t n = 0; char* sv; char* t; for (t = strtok_r(s, ",", &sv); t && n < max; t = strtok_r(NULL, ",", &sv)) a[n++] = (size_t)strtoull(t, NULL, 10); return n; }
-static void on_alarm(int sg) { (void)sg; { static const char m[] = "\nend FAIL hang (no return within the time limit)\n"; if (g_buf && write(1, g_buf, g_len) < 0) {} if (write(1, m, sizeof m - 1) < 0) {} } _exit(3); }
+static int g_hangWait;     /* ZV_HANG_WAIT=1: a blocked run stays alive after its verdict so that a debugger can be attached */
+static void on_alarm(int sg) { (void)sg; { static const char m[] = "\nend FAIL hang (no return within the time limit)\n"; if (g_buf && write(1, g_buf, g_len) < 0) {} if (write(1, m, sizeof m - 1) < 0) {} } if (g_hangWait) { signal(SIGALRM, SIG_IGN); for (;;) sleep(1000); } _exit(3); }
+/* op mtf: blocked = the process has used no processor time during two consecutive 4 s periods (a deadlock; a run slowed down by a loaded machine keeps
+ * consuming time and is not a hang); 180 s in all for a run that normally takes 0.1 s is no termination either */
+#include <sys/time.h>
+#include <time.h>
+static long long g_wdCpu = -1; static int g_wdIdle, g_wdTicks;
+static void on_tick(int sg) { struct timespec ts; long long now; (void)sg; clock_gettime(CLOCK_PROCESS_CPUTIME_ID, &ts); now = (long long)ts.tv_sec * 1000000 + ts.tv_nsec / 1000;
+    g_wdIdle = (g_wdCpu >= 0 && now - g_wdCpu < 3000) ? g_wdIdle + 1 : 0; g_wdCpu = now; g_wdTicks++;
+    if (g_wdIdle >= 2 || g_wdTicks >= 45) on_alarm(sg); }
+static void watchdog(int on) { struct itimerval it; memset(&it, 0, sizeof it); g_wdCpu = -1; g_wdIdle = 0; g_wdTicks = 0;
+    if (on) { signal(SIGALRM, on_tick); it.it_interval.tv_sec = 4; it.it_value.tv_sec = 4; setitimer(ITIMER_REAL, &it, NULL); }
+    else { setitimer(ITIMER_REAL, &it, NULL); signal(SIGALRM, on_alarm); } }
 static void frame_start(ZSTD_CCtx* c) { g_mt = c->mtctx; if (!g_mt) return; ev("frame %u\n", g_mt->jobIDMask); g_cDone = g_cNext = 0; g_cFlushed = 0; g_cProduced = g_mt->produced; g_serialSeen = 0; g_inFrame = 1; memset(g_ckPending, 0, sizeof g_ckPending); }
 
 int main(void) {
-    char* line; signal(SIGALRM, on_alarm);
+    char* line; signal(SIGALRM, on_alarm); g_hangWait = getenv("ZV_HANG_WAIT") != NULL;
     while ((line = zv_getline())) {
         char* op = strtok(line, " "); if (!op) continue;
         if (!strcmp(op, "mt")) {
@@ -228,6 +291,54 @@ int main(void) {
             ZSTD_freeCCtx(c);
             if (g_buf) fputs(g_buf, stdout);
             printf("end %s frames=%d in=%llu out=%llu\n", verdict, doneFrames, totIn, totOut);
+            free(src); free(dst); free(back);
+        } else if (!strcmp(op, "mtf")) {
+            int workers = atoi(strtok(NULL, " ")); char* spec = strtok(NULL, " "); size_t n = (size_t)strtoull(strtok(NULL, " "), NULL, 10); unsigned long long seed = strtoull(strtok(NULL, " "), NULL, 10);
+            size_t ic[32], oc[32]; size_t ni = csv(strtok(NULL, " "), ic, 32), no = csv(strtok(NULL, " "), oc, 32); const char* verdict = "ok"; char vbuf[200]; char res[64] = "ok"; const char* who; int faultFrame, flushEvery, f;
+            unsigned char* src = (unsigned char*)malloc(n ? n : 1); size_t cap = ZSTD_compressBound(n) + 4096; unsigned char* dst = (unsigned char*)malloc(cap); unsigned char* back = (unsigned char*)malloc(n ? n : 1);
+            ZSTD_customMem cmem; ZSTD_CCtx* c; unsigned long long totIn = 0, totOut = 0; int doneFrames = 0; long nA = 0, nW = 0, nC = 0;
+            g_perturb = atoi(strtok(NULL, " ")); g_pseed = (unsigned)strtoul(strtok(NULL, " "), NULL, 10); who = strtok(NULL, " "); g_fNth = atol(strtok(NULL, " ")); g_fSticky = atoi(strtok(NULL, " ")); faultFrame = atoi(strtok(NULL, " "));
+            g_dJob = atoi(strtok(NULL, " ")); g_dUs = (unsigned)strtoul(strtok(NULL, " "), NULL, 10); flushEvery = atoi(strtok(NULL, " "));
+            g_fWho = who[0] == 'A' ? 0 : who[0] == 'W' ? 1 : who[0] == 'C' ? 2 : who[0] == 'J' ? 3 : -1; g_fJob = who[0] == 'J' ? (unsigned)atoi(who + 1) : 0;
+            g_fArmed = 0; g_fFired = 0; g_cut = 0; g_efinDone = 0; g_turnAfterEfin = 0; g_patient = 1; g_nAll = g_nWorker = g_nCaller = 0; g_live = 0;
+            g_len = 0; if (g_buf) g_buf[0] = 0; g_nworkers = 0; g_mt = NULL; g_serial = NULL; g_inFrame = 0; memset(g_job, 0, sizeof g_job); t_rng = g_pseed * 31u + 7;
+            cmem.customAlloc = zv_malloc; cmem.customFree = zv_free; cmem.opaque = NULL;
+            gen_data(src, n, seed); watchdog(1);
+            c = ZSTD_createCCtx_advanced(cmem); g_cctx = c;
+            for (f = 0; f < 3 && !strcmp(verdict, "ok"); f++) {
+                size_t pos = 0, out = 0, r = 0; int calls = 0, ii = 0, oi = 0, failed = 0; char buf[512]; char* sv = NULL; char* kv;
+                /* frame after the faulted one: session reset only (the parameters stay); last frame: everything reset, one more worker */
+                if (f == 0 || f == 2 || f != faultFrame + 1) {
+                    ZSTD_CCtx_reset(c, ZSTD_reset_session_and_parameters);
+                    ZSTD_CCtx_setParameter(c, ZSTD_c_nbWorkers, workers + (f == 2 ? 1 : 0));
+                    if (strcmp(spec, "-")) { strncpy(buf, spec, sizeof buf - 1); buf[sizeof buf - 1] = 0; for (kv = strtok_r(buf, ",", &sv); kv; kv = strtok_r(NULL, ",", &sv)) { int id, val; if (sscanf(kv, "%d=%d", &id, &val) == 2) ZSTD_CCtx_setParameter(c, (ZSTD_cParameter)id, val); } }
+                } else { size_t const rr = ZSTD_CCtx_reset(c, ZSTD_reset_session_only); if (ZSTD_isError(rr)) { snprintf(vbuf, sizeof vbuf, "FAIL session reset after the faulted frame: %s", ZSTD_getErrorName(rr)); verdict = vbuf; break; } }
+                if (f == faultFrame) __atomic_store_n(&g_fArmed, 1, __ATOMIC_RELEASE);
+                for (;;) { ZSTD_inBuffer ib; ZSTD_outBuffer ob; size_t isz = ic[ii++ % ni], osz = oc[oi++ % no]; ZSTD_EndDirective dir;
+                    if (isz > n - pos) isz = n - pos; if (osz > cap - out) osz = cap - out; dir = (pos + isz == n) ? ZSTD_e_end : ((flushEvery > 0 && calls % flushEvery == flushEvery - 1) ? ZSTD_e_flush : ZSTD_e_continue);
+                    ib.src = src + pos; ib.size = isz; ib.pos = 0; ob.dst = dst + out; ob.size = osz; ob.pos = 0;
+                    r = ZSTD_compressStream2(c, &ob, &ib, dir);
+                    if (ZSTD_isError(r)) { failed = 1; break; }
+                    pos += ib.pos; out += ob.pos; calls++;
+                    if (t_worker < 0) caller_sync();
+                    if (dir == ZSTD_e_end && r == 0) break;
+                    if (calls > 4000000) { verdict = "FAIL no termination"; break; } }
+                if (f == faultFrame) { __atomic_store_n(&g_fArmed, 0, __ATOMIC_RELEASE); nA = __atomic_load_n(&g_nAll, __ATOMIC_SEQ_CST); nW = __atomic_load_n(&g_nWorker, __ATOMIC_SEQ_CST); nC = __atomic_load_n(&g_nCaller, __ATOMIC_SEQ_CST); snprintf(res, sizeof res, "%s", failed ? zv_errclass(r) : "ok"); }
+                if (strcmp(verdict, "ok")) break;
+                if (failed) {
+                    if (f != faultFrame || !FIRED()) { snprintf(vbuf, sizeof vbuf, "FAIL compressStream2 (frame %d, no allocation refused): %s", f, ZSTD_getErrorName(r)); verdict = vbuf; break; }
+                    pthread_mutex_lock(&g_log); g_cut = 0; pthread_mutex_unlock(&g_log); ev("abort\n"); g_inFrame = 0; continue; }
+                pthread_mutex_lock(&g_log); { int const wasCut = g_cut; g_cut = 0; pthread_mutex_unlock(&g_log); if (wasCut) ev("abort\n"); else { caller_sync(); ev("frameend\n"); } } g_inFrame = 0;
+                if (!roundtrip(src, n, dst, out, back)) { snprintf(vbuf, sizeof vbuf, "FAIL round trip (frame %d%s)", f, f == faultFrame ? (FIRED() ? ", reported complete although an allocation was refused" : ", no allocation refused") : (f > faultFrame ? ", context reused after the faulted frame" : "")); verdict = vbuf; break; }
+                if (f == faultFrame && FIRED() && (g_fWho == 1 || g_fWho == 3)) { verdict = "FAIL a worker's job lost an allocation and the frame was reported complete"; break; }
+                totIn += n; totOut += out; doneFrames++;
+            }
+            ZSTD_freeCCtx(c);
+            watchdog(0);
+            if (!strcmp(verdict, "ok") && LIVE() != 0) { snprintf(vbuf, sizeof vbuf, "FAIL %ld blocks of the custom allocator still live after ZSTD_freeCCtx", LIVE()); verdict = vbuf; }
+            g_fWho = -1; g_dJob = -1; g_patient = 0;
+            if (g_buf) fputs(g_buf, stdout);
+            printf("end %s frames=%d in=%llu out=%llu fault=%d res=%s allocs=%ld/%ld/%ld\n", verdict, doneFrames, totIn, totOut, FIRED(), res, nA, nW, nC);
             free(src); free(dst); free(back);
         } else printf("bad-op\n");
         fflush(stdout);
